@@ -31,7 +31,7 @@ TRUSTED = ["python exec of the same function source with the harness's HASH and 
 
 def plan(tier, seed):
     q = tier == "quick"
-    return dict(tasks=pool.batches("calls", 140 if q else 2400, 4) + pool.batches("forbidden", 20 if q else 80, 4), nworkers=4, time_cap=85 if q else 880, timeout=120)
+    return dict(tasks=pool.batches("calls", 140 if q else 2400, 4) + pool.batches("forbidden", 20 if q else 80, 4) + pool.batches("crossmod", 24 if q else 240, 6), nworkers=4, time_cap=85 if q else 880, timeout=120)
 
 
 def worker_init():
@@ -93,6 +93,8 @@ def gen_case(task, i):
     st = task["stream"]
     r = rng(seed_env(), ID, st, i)
     o = dict(append_version=False, compact=r.random() < 0.4, remove_labels=r.random() < 0.4, inline_functions=r.random() < 0.7)
+    if st == "crossmod":
+        return dict(stream=st, offset=r.choice([100, 200, 300, 1000]) + r.randint(0, 3), level=r.choice([3, 3, 3, 5]), options=o, forbidden_in_library=(i % 6 == 5))
     if st == "forbidden":
         body = FORBIDDEN[i % len(FORBIDDEN)]
         return dict(defs=["@constexpr\n" + body], calls=[dict(text="cx_bad(1)", position="assign")], options=o, stream=st, expect_rejected=True, module=False)
@@ -170,7 +172,50 @@ def expected_values(case):
     return out
 
 
+def check_crossmod(case):
+    """main-script constexpr function calling the constexpr helper of a library module; the helper differs from case
+    to case while the main script and the call text stay the same (the worker compiles them one after the other)"""
+    import re
+
+    cnt = dict(programs=1, call_sites=1, compiled=0, errors=0, timeouts=0, literals_read_back=0, twins_compared=0, crossmod_programs=1)
+    off, lvl = case["offset"], case["level"]
+    main = HEADER + f"from library import cfg\n@constexpr\ndef threshold(level):\n    return cfg.base(level) * 10 + 1\ndb.Setting = threshold({lvl})\n"
+    lib = HEADER + f"@constexpr\ndef base(n):\n    return n + {off}\n"
+    if case.get("forbidden_in_library"):
+        # the helper of the library opens a file: must be rejected like one in the main script
+        lib = HEADER + "@constexpr\ndef base(n):\n    return len(open('/proc/self/cmdline').read()) + n\n"
+    res = H.compile_src({"": main, "cfg": lib}, case["options"])
+    vio = []
+    if H.is_timeout(res):
+        cnt["timeouts"] = 1
+        return dict(verdict="inconclusive", reason="constexpr-timeout-under-load", counters=cnt, violations=[], features=["crossmod"])
+    if case.get("forbidden_in_library"):
+        if isinstance(res, dict) and "error" not in res:
+            vio.append(dict(signature=dict(monitor="rejection", event="forbidden-constexpr-accepted", where="library"), triggers=[], detail=dict(result=str(res)[:300], library=lib)))
+        else:
+            cnt["rejected_as_required"] = 1
+    elif isinstance(res, dict) and isinstance(res.get("code"), str):
+        cnt["compiled"] = 1
+        want = (lvl + off) * 10 + 1
+        m = re.search(r"s db Setting (\S+)", res["code"])
+        got = m.group(1) if m else None
+        cnt["literals_read_back"] = 1
+        cnt["twins_compared"] = 1
+        if got is not None and got.startswith("$"):
+            try:
+                got = str(int(got[1:], 16))
+            except ValueError:
+                pass
+        if got != str(want):
+            vio.append(dict(signature=dict(monitor="constexpr-twin", event="literal-differs", where="crossmod"), triggers=[], detail=dict(expected=want, emitted=got, library=lib, code=res["code"][:300])))
+    else:
+        cnt["errors"] = 1
+    return dict(verdict="violated" if vio else "held", counters=cnt, violations=vio, features=["crossmod"], key=sha(["crossmod", off, lvl]), sample=dict(main=main[len(HEADER) :], library=lib[len(HEADER) :]))
+
+
 def check_case(case):
+    if case.get("stream") == "crossmod":
+        return check_crossmod(case)
     cnt = dict(programs=1, call_sites=len(case["calls"]), compiled=0, errors=0, timeouts=0, literals_read_back=0, twins_compared=0, rejected_as_required=0, module_programs=int(bool(case.get("module"))))
     vio = []
     o = case["options"]
